@@ -113,7 +113,7 @@ def explore(ck, cfg, maxlen, mode_args):
 def main(ck):
     ck.assumptions = [
         "FIBER backend (sequentially consistent, cooperative); ordering effects are C04's subject",
-        "the Own.run correspondence covers pipelines of unique futures with value-returning steps; SharedFuture sources with plain and unwrapping continuations (throwing / skipped, other handles alive) and unique pipelines with an unwrapping step whose inner future is still pending and is fulfilled / failed / dropped by a third fiber (family unwrap/), and lazy Tasks (ready and Schedule heads, one step, every way to start or abandon the chain: family task/) are explored with the oracle only; combinators and coroutine frames are covered by the layer (2)/(3) theorems and by the C09/C10/C13 checks' own oracles",
+        "the Own.run correspondence covers pipelines of unique futures with value-returning steps; SharedFuture sources with plain and unwrapping continuations (throwing / skipped, other handles alive) and unique pipelines with an unwrapping step whose inner future is still pending and is fulfilled / failed / dropped by a third fiber (family unwrap/), and lazy Tasks (ready and Schedule heads, one step, every way to start or abandon the chain: family task/), and Connect(future, promise / shared promise) with a ready or pending source (family connect/) are explored with the oracle only; combinators and coroutine frames are covered by the layer (2)/(3) theorems and by the C09/C10/C13 checks' own oracles",
         "for a final DetachInline step the Detach core's own word is not named: its publication and self-release are synthesised in the replay (the oracle still checks its functor and the allocation balance)",
         "blocks released during an execution are filled with 0xDD and kept until its end; an instrumented functor or value used or destroyed inside a released block is reported as use after free; heap misuse that touches neither an instrumented object nor the allocation balance is not detected",
     ]
@@ -138,6 +138,8 @@ def main(ck):
         rows += explore(ck, "F", 1, ["--mode", "dfs", "--pb", "2", "--max", "4000", "--only", "unwrap/"])
         rows += explore(ck, "F", 1, ["--mode", "dfs", "--pb", "2", "--max", "4000", "--only", "unwrap/"] + after)
         rows += explore(ck, "F", 1, ["--mode", "dfs", "--only", "task/"])
+        rows += explore(ck, "F", 1, ["--mode", "dfs", "--only", "connect/"])
+        rows += explore(ck, "F", 1, ["--mode", "dfs", "--only", "connect/"] + after)
     else:
         rows += explore(ck, "F", 1, ["--mode", "dfs", "--only", "/f"])
         rows += explore(ck, "F", 1, ["--mode", "dfs", "--only", "/f"] + after)
@@ -148,6 +150,8 @@ def main(ck):
         rows += explore(ck, "F", 1, ["--mode", "dfs", "--pb", "3", "--max", "200000", "--only", "unwrap/"])
         rows += explore(ck, "F", 1, ["--mode", "dfs", "--pb", "3", "--max", "200000", "--only", "unwrap/"] + after)
         rows += explore(ck, "F", 1, ["--mode", "dfs", "--only", "task/"])
+        rows += explore(ck, "F", 1, ["--mode", "dfs", "--only", "connect/"])
+        rows += explore(ck, "F", 1, ["--mode", "dfs", "--only", "connect/"] + after)
         rows += explore(ck, "FA", 1, ["--mode", "dfs", "--pb", "2"])
         rows += explore(ck, "FA", 1, ["--mode", "dfs", "--pb", "2"] + after)
         rows += explore(ck, "FA", 2, ["--mode", "random", "--max", "60", "--seed", str(ck.seed), "--only", "/f"] + both)
@@ -165,7 +169,7 @@ def main(ck):
     seen, terms, metas = set(), [], []
     seen_ev, dup_ev = set(), 0
     for t in traces:
-        if t["fail"] or t["deadlock"] or t["scenario"].startswith(("shared/", "unwrap/", "task/")):
+        if t["fail"] or t["deadlock"] or t["scenario"].startswith(("shared/", "unwrap/", "task/", "connect/")):
             continue
         key = (t["scenario"], t["trace"])
         if key in seen:
